@@ -363,10 +363,21 @@ def make_stream_spec(prog, acts, eofs, rng, backend, lineno_on, extra_options=No
     return "\n".join(out) + "\n"
 
 
-def stream_sx(acts, eofs, lineno_on):
+def eof_rules(eofs, eof_unq):
+    """the <<EOF>> rules in the order make_stream_spec prints them: [(scope or None, ops)]"""
+    unq = sorted(eof_unq or [])
+    rules = [([sc], ops) for sc, ops in sorted(eofs.items()) if sc not in unq]
+    if unq:
+        rules.append((None, eofs[unq[0]]))
+    return rules
+
+
+def stream_sx(acts, eofs, lineno_on, eof_unq=None):
     a = " ".join("(%d %s)" % (r, " ".join(op_sx(o) for o in ops)) for r, ops in sorted(acts.items()))
     e = " ".join("(%d %s)" % (s, " ".join(op_sx(o) for o in ops)) for s, ops in sorted(eofs.items()))
-    return "(stream_prog (acts (%s)) (eofs (%s)) (lineno %d))" % (a, e, 1 if lineno_on else 0)
+    er = " ".join("(%s %s)" % ("u" if sc is None else "(%s)" % " ".join(str(x) for x in sc), " ".join(op_sx(o) for o in ops))
+                  for sc, ops in eof_rules(eofs, eof_unq))
+    return "(stream_prog (acts (%s)) (eofs (%s)) (eofrules (%s)) (lineno %d))" % (a, e, er, 1 if lineno_on else 0)
 
 
 def parse_events(out, bol_obs):
@@ -465,7 +476,7 @@ def eval_stream_case(flex, workdir, case):
             total = sum(len(w) for w in rn['sessions'][0])
             queries.append("(conserve %d (%s))" % (2 * total + 50, " ".join("(" + " ".join(str(b) for b in w) + ")" for w in rn['sessions'][0])))
             nconserve += 1
-    sx = "(case %s\n%s\n(bolobs %d)\n(queries (%s)))\n" % (scanner.sx_program(prog), stream_sx(case['acts'], case['eofs'], case['lineno']),
+    sx = "(case %s\n%s\n(bolobs %d)\n(queries (%s)))\n" % (scanner.sx_program(prog), stream_sx(case['acts'], case['eofs'], case['lineno'], case.get('eof_unq')),
                                                           1 if bol_obs else 0, "\n".join(queries))
     rc, out, err = scanner.run_driver(sx, workdir, timeout=120)
     if rc == "timeout":
